@@ -29,7 +29,8 @@ pub(crate) fn in_i32_range(x: core::primitive::f32) -> bool {
 #[kani::proof_for_contract(fallback::floor)]
 fn float_fallback_floor_contract() {
     let x: core::primitive::f32 = kani::any();
-    fallback::floor(x);
+    let r = fallback::floor(x);
+    assert!(!in_i64_range(x) || is_floor_of(r, x)); // explicit, for native replay
 }
 
 // @ob props=C20 tier=quick kind=P cfg=core-none,core-std timeout=300
@@ -39,7 +40,8 @@ fn float_fallback_floor_contract() {
 #[kani::proof_for_contract(fallback::abs)]
 fn float_fallback_abs_contract() {
     let x: core::primitive::f32 = kani::any();
-    fallback::abs(x);
+    let r = fallback::abs(x);
+    assert!(is_abs_of(r, x)); // explicit, for native replay
 }
 
 // @ob props=C20 tier=quick kind=P cfg=core-none,core-std timeout=300
